@@ -216,6 +216,12 @@ const BAD_IRI: [&str; 16] = [
     "http://e/a`b", "http://e/a\\b", "http://e/a\nb", "http://e/\u{1}", "rel", "", "http://e/%zz", "http://e/\u{e000}",
     "//e/x",
 ];
+/// made with oxrdf's NamedNode::new_unchecked: each has a character IRIREF cannot carry
+const UNCHECKED_IRI: [&str; 14] = [
+    "http://e/a b", "http://e/a>b", "http://e/a<b", "http://e/a\"b", "http://e/{x}", "http://e/a|b", "http://e/a^b",
+    "http://e/a`b", "http://e/a\\b", "http://e/a\nb", "http://e/\u{1}", "http://e/\\u0041", "http://e/x> <http://e/y",
+    "http://e/a\tb",
+];
 const LABELS: [&str; 30] = [
     "b", "b1", "x", "node", "1", "0a", "42", "a1f", "a.b", "a..b", "a.b.c", "a:b", ":x", "x:", "_x", "a-b", "\u{e9}",
     "a\u{b7}", "\u{1F600}", "x.", ".x", "", "a b", "-a", "a\u{300}", "\u{300}a", "a.-b", "a.:b", "A_B-9", "b\u{203f}c",
@@ -389,6 +395,19 @@ fn run_case(out: &mut Out, seed: u64, c: u64) {
         };
         triples.push(Triple::new(s, p, o));
     }
+    // the other side of the IRI predicate: one IRI that no validating constructor would accept
+    let unchecked = !triples.is_empty() && g.r.chance(1, 10);
+    if unchecked {
+        let bad: NamedNode = oxrdf::NamedNode::new_unchecked(*g.r.pick(&UNCHECKED_IRI)).into();
+        let k = g.r.below(triples.len() as u64) as usize;
+        let t = triples[k].clone();
+        triples[k] = match g.r.below(4) {
+            0 => Triple::new(bad.into(), t.predicate, t.object),
+            1 => Triple::new(t.subject, RdfPredicate::from(bad), t.object),
+            2 => Triple::new(t.subject, t.predicate, bad.into()),
+            _ => Triple::new(t.subject, t.predicate, Literal::new_typed_literal(g.value(), bad).into()),
+        };
+    }
     let ts: Vec<MT> = triples.iter().map(abs).collect();
 
     // implementation: serialize and parse back, per format
@@ -473,7 +492,9 @@ fn run_case(out: &mut Out, seed: u64, c: u64) {
     }
     let ct = class_text(&ts);
     let cx = class_xml(&ts);
-    if ct.is_none() && cx.is_none() {
+    if unchecked {
+        out.count("illformed_iri_case");
+    } else if ct.is_none() && cx.is_none() {
         out.count("outside_known_classes");
     }
 
@@ -487,7 +508,8 @@ fn run_case(out: &mut Out, seed: u64, c: u64) {
     );
     let g_back = |b: &Option<Vec<MT>>| g_opt(b.as_ref().map(|v| g_triples(v)));
     let gal = format!(
-        "(Build_case {} {} {} {} {} {} {} {} {} {})",
+        "(Build_case {} {} {} {} {} {} {} {} {} {} {})",
+        g_bool(!unchecked),
         g_triples(&ts),
         g_str(&texts[0]),
         g_str(&texts[1]),
@@ -505,6 +527,11 @@ fn run_case(out: &mut Out, seed: u64, c: u64) {
     let names = ["N-Triples", "Turtle", "RDF/XML"];
     for k in 0..3 {
         let ok = backs[k].as_ref().map_or(false, |b| iso(&ts, b));
+        if unchecked {
+            // not a triple set in the sense of the property (the IRI is not an IRI); observed only
+            out.count(if ok { "illformed_iri_roundtrip_ok" } else { "illformed_iri_roundtrip_fails" });
+            continue;
+        }
         if ok {
             out.count(["nt_roundtrip_ok", "ttl_roundtrip_ok", "xml_roundtrip_ok"][k]);
             continue;
@@ -548,7 +575,7 @@ fn replay(out: &mut Out, class: &str, formats: &[RdfFormat], triples: Vec<Triple
 fn main() {
     let args = parse_args();
     quiet_panics();
-    let mut out = Out::new(&args, "From Verif Require Import Rdf.", "Rdf.case", "Rdf.check_case", 60);
+    let mut out = Out::new(&args, "From Verif Require Import Rdf.", "Rdf.case", "Rdf.check_case", 40);
     out.rule = "random triple sets of 0..7 triples over small subject/predicate pools (so Turtle object lists, predicate \
                 lists and rdf:Description groups occur), terms built with the validating constructors from boundary \
                 pools: IRIs over 8 namespaces x 22 local names (empty local name, leading digit, non-ASCII, astral, rdf: \
@@ -556,7 +583,9 @@ fn main() {
                 values over quotes, backslash, LF, CR, tab, C0 controls, DEL, NEL, U+2028, noncharacters, astral and \
                 private-use characters, XML metacharacters, empty and whitespace-only strings; language tags of both \
                 cases; xsd:string, custom and rdf: datatypes. 2/5 of the cases draw from the full boundary pools (known \
-                classes included), the rest avoid the ingredients of the known classes. Each case also offers \
+                classes included), the rest avoid the ingredients of the known classes; 1/10 of the cases get one IRI \
+                made with oxrdf's new_unchecked that contains a character IRIREF cannot carry (outside the property's \
+                domain: only observed, must not come back unchanged). Each case also offers \
                 candidate IRIs, labels and language tags (valid and invalid) to the constructors. Non-trivial = \
                 non-empty set; distinct by case text."
         .to_string();
